@@ -56,6 +56,8 @@ class Gen:
         self.roles: dict[str, str] = {}
         self.nvar = 0
         self.neid = 0
+        self.noid = 0
+        self.twins: list[dict] = []       # prefixed expressions to repeat
         self.nmacro = 0
         self.nslot = 0
         self.macro_stack: list[dict] = []     # macros being generated
@@ -118,7 +120,8 @@ class Gen:
         self.nsite += 1
         self.sites[str(k)] = self.value_for(role)
         self.roles[str(k)] = role
-        p = {"k": "P", "id": k}
+        self.noid += 1
+        p = {"k": "P", "id": k, "oid": self.noid}
         if not plain and self.o["pyforms"] and \
                 self.ch.coin(self.o["pyforms"]):
             # python sub-grammar around the probe: lambdas with star /
@@ -128,7 +131,39 @@ class Gen:
                     "e": p}
         return p
 
+    def _retwin(self, e: dict) -> dict:
+        """A copy of e: the same text (same probe ids), new occurrence ids."""
+        import copy as _copy
+        c = _copy.deepcopy(e)
+
+        def walk(x):
+            if isinstance(x, dict):
+                if x.get("k") == "P":
+                    self.noid += 1
+                    x["oid"] = self.noid
+                for v in x.values():
+                    walk(v)
+            elif isinstance(x, list):
+                for v in x:
+                    walk(v)
+        walk(c)
+        return c
+
     def expr(self, role: str, allow_prefix: bool = True) -> dict:
+        ch = self.ch
+        if self.o.get("twins") and allow_prefix and self.twins and \
+                ch.coin(self.o["twins"]):
+            cand = [t for t in self.twins if t[0] == role]
+            if cand:
+                # the same expression text at a second position
+                return self._retwin(ch.pick(cand)[1])
+        e = self._expr(role, allow_prefix)
+        if self.o.get("twins") and e["k"] in ("not", "exists", "string",
+                                              "python"):
+            self.twins.append((role, e))
+        return e
+
+    def _expr(self, role: str, allow_prefix: bool = True) -> dict:
         ch = self.ch
         r = ch._r.random()
         ch.n += 1
@@ -147,6 +182,14 @@ class Gen:
             elif t == 3 and allow_prefix and role not in ("repeat",):
                 alts[-1] = {"k": "string", "parts": [["lit", "s"],
                                                      ["expr", self.probe("part")]]}
+            elif t == 4 and allow_prefix and role in ("cond", "omit",
+                                                      "define"):
+                # a type prefix on a later alternative takes the rest of
+                # the pipe with it: a | not: b | c  ==  a | not:(b | c)
+                inner = {"k": "pipe", "alts": [self.probe(role, True),
+                                               self.probe(role, True)]} \
+                    if ch.coin(0.6) else self.probe(role, True)
+                alts[-1] = {"k": ch.pick(["not", "exists"]), "e": inner}
             return {"k": "pipe", "alts": alts}
         if allow_prefix and r < self.o["pipes"] + self.o["prefixes"]:
             t = ch.choose(5)
@@ -504,6 +547,7 @@ class Ser:
         if k == "P":
             self.w("P(%d)" % e["id"])
             self.occ[idx]["probe"] = e["id"]
+            self.occ[idx]["oid"] = e.get("oid")
         elif k == "lit":
             self.w(e["src"])
         elif k == "load":
